@@ -11,7 +11,7 @@ import time
 VERIF = os.path.dirname(os.path.dirname(os.path.abspath(__file__)))
 TARGET = os.path.join(VERIF, '.cache', 'kani', 'target')
 REPO = os.environ.get('VERIF_REPO', '/repo')
-TIMEOUT_S = 3000
+TIMEOUT_S = 900   # the groups take 30-100 s on the reference tree; a change that makes CBMC run away is reported as undecided
 
 GROUPS = {
     'relay_server': dict(
